@@ -58,6 +58,16 @@ class UserErr(Exception):
         return hash(("UserErr", repr(self.tag)))
 
 
+class FalsyUserErr(UserErr):
+    """A user exception whose truth value is False (e.g. an aggregate error over an empty list)."""
+
+    def __bool__(self):
+        return False
+
+    def __len__(self):
+        return 0
+
+
 class UserBaseErr(BaseException):
     def __init__(self, tag):
         BaseException.__init__(self, tag)
@@ -65,6 +75,14 @@ class UserBaseErr(BaseException):
 
     def __repr__(self):
         return "UserBaseErr(%r)" % (self.tag,)
+
+
+def make_user_exc(cls, tag):
+    if cls == "base":
+        return UserBaseErr(tag)
+    if cls == "falsy":
+        return FalsyUserErr(tag)
+    return UserErr(tag)
 
 
 class HarnessFault(Exception):
